@@ -264,6 +264,16 @@ def rule_widening(ctx):
                 v = a if atom[2] == KV else b if is_kd(atom[2]) else None
                 if v is not None and all(x[0] == 'const' for x in atom[3][1]):
                     return any(x[1] == v for x in atom[3][1])
+            # any other test over the two kinds (pairs of kinds in a table of pairs, negations, ...): concrete evaluation
+            from ..rules import val_eval, UNKNOWN
+            env = {KV: a}
+            for x in T.subterms(atom):
+                if is_kd(x):
+                    env[x] = b
+            if len(env) > 1 or T.contains(atom, KV):
+                r = val_eval(atom, env)
+                if r is not UNKNOWN:
+                    return bool(r)
             return None
         ev = run(ctx, fi, oracle=oracle)
         if len(ev.paths) != 1 or ev.paths[0].kind != 'return' or ev.paths[0].guards:
